@@ -226,6 +226,18 @@ theorem C02_dpda_no_eps_run_dies_out (M : DPDA σ α γ) (h : EpsTerminates M.mo
     ∃ k, ∀ c, ¬ StepN M.moves k (M.start w) c :=
   M.dies_out h (M.start w)
 
+/-- The per-word hypothesis `hfin` of `C02_npda_decides` / first conjunct of `C02_npda_reject_iff` is
+*exactly* "ε-moves cannot run forever" on the run tree of that word: all runs on `w` die out iff no
+configuration reachable from the start configuration starts an infinite sequence of λ-moves
+(NPDA and DPDA tables).  `C02_no_eps_run_dies_out` is the special case where the condition
+holds for all configurations, i.e. for the table. -/
+theorem C02_dies_out_iff_eps_terminates_on_run :
+    (∀ (M : NPDA σ α γ) (w : List α), (∃ k, ∀ c, ¬ StepN M.moves k (M.start w) c) ↔
+      ∀ k c, StepN M.moves k (M.start w) c → Acc (fun c' c => EpsStep M.moves c c') c) ∧
+    (∀ (M : DPDA σ α γ) (w : List α), (∃ k, ∀ c, ¬ StepN M.moves k (M.start w) c) ↔
+      ∀ k c, StepN M.moves k (M.start w) c → Acc (fun c' c => EpsStep M.moves c c') c) :=
+  ⟨fun M w => M.dies_out_iff (M.start w), fun M w => M.dies_out_iff (M.start w)⟩
+
 /-- `C02_npda_decides` with the quantifier's own condition: on a table whose ε-moves cannot run
 forever the reader decides every word, and says `True` iff an accepting configuration is
 reachable. -/
